@@ -87,7 +87,7 @@ def _to_class_name(lsp_method_name: str) -> str:
     name = name.replace("/", "_")
     name = METHOD_NAME_RE_1.sub(r"\1_\2", name)
     name = METHOD_NAME_RE_2.sub(r"\1_\2", name)
-    return "".join(part.title() for part in name.split("_"))
+    return "".join(part.capitalize() for part in name.split("_"))
 
 
 def _get_class_name(obj: Union[model.Request, model.Notification]) -> str:
